@@ -7,7 +7,8 @@ proved value clause ctfTRu_sound_partial": an in-class case whose value the exac
 whatever known-finding class its signature falls in) resp. Algorithm 3 (`ctftr cond`: the flag `CtfTr.ctfTRInClass` =
 "inside the decidable hypotheses of the proved value clause ctfTR_sound_partial", tied to the oracle in the same way; the
 derivation of D* from the ancestral components, Algorithm 2 on D* with its own validator, the Fraction of line 4, the returned event, the five final checks;
-crashes of the known findings included, as category `internal`).  Expressions are compared structurally, then by exact
+an exception after validation is category `internal`; the former crash classes of SIMPLIFY and Algorithm 3 are fixed in the
+code, repo c8cad49 / 333fa44 / f335599, and their witnesses are regression cases in corpus/C09).  Expressions are compared structurally, then by exact
 value on the case's model family; events as multisets.  The models of SIMPLIFY, the ctf-factor factorisation and Tian's
 IDENTIFY are the `ctf` and `tian` families'.
 
@@ -89,16 +90,20 @@ ASSUMPTIONS = [
     "composition axiom for the edges cut at conditioned ancestors, marginalisation of the valueless ancestors and of the "
     "outcomes, independence of the ancestral components without an outcome; J = Q[V(D*)]) for validated queries built by the "
     "public wrapper inside the decidable class CtfTr.ctfTRSoundClass: (a) one world - across ALL ancestral components a vertex "
-    "is named by one counterfactual variable only; (b) every outcome is found in the components under its own name "
-    "(OutcomesFound), two outcomes over one vertex are the same item (an outcome may share its vertex with a condition); (c) no query "
+    "is named by one counterfactual variable only; (b) every outcome is a member of the components under its own name, i.e. is given in "
+    "the minimal form the components store (OutcomesFound; since repo f335599 the code looks an outcome up under that form, "
+    "so inside the class every outcome is its own lookup key: Lean lookup_self), two outcomes over one vertex are the same item "
+    "(an outcome may share its vertex with a condition); (c) no query "
     "variable intervenes on itself or twice on one vertex with different values; (d) no literal subscript of the query names a "
     "vertex of the components unless it names a condition (else one of the two sums of line 4 captures it) - a predicate on "
     "target graph and query only; that the simplified D* (valueless ancestors as free variables) is then in Algorithm 2's "
     "class ctfSoundClass is proved (dstar_in_ctfSoundClass); for every compatible family of "
     "functional SCMs in which the conditions have positive probability and every valuation that reads the query's values and "
     "literal subscripts (Ctf.EventReading on outcomes ++ conditions; exists iff no name receives two value symbols). OPEN "
-    "outside the class: FALSE on the findings cond:value:* (two_values / multi_world / literal_bound / outcome-lookup-miss / "
-    "outcome-also-condition); not decided for multi-world queries that Algorithm 3 happens to answer correctly. The theorem is "
+    "outside the class: FALSE on the findings cond:value:* (two_values / multi_world / literal_bound); not decided for "
+    "multi-world queries that Algorithm 3 happens to answer correctly and for queries with an outcome that is not in minimal "
+    "form (a causally irrelevant subscript: the former findings outcome-lookup-miss / outcome-also-condition are fixed, repo "
+    "f335599, and the exact oracle accepts these answers, but the value theorem is proved for minimal outcomes only). The theorem is "
     "TIED to the oracle on every run: the driver reports CtfTr.ctfTRInClass for every answered conditional case, and an "
     "in-class case on which the exact oracle rejects the value is a disagreement whatever known-finding class its signature "
     "falls in",
@@ -116,29 +121,30 @@ ASSUMPTIONS = [
     "stream dropped_bi, not compared); (b) the dict of the final checks keyed by base name keeps the LAST of two entries of a "
     "vertex named in two worlds, once with and once without a value (CtfTr.finalChecksOrderSensitive; the driver reports it "
     "and then only the validator verdict is compared; PROVED impossible on an answer: ctfTR_simplified_binds_once - a vertex in two worlds makes Algorithm 2 answer FAIL before line 4)",
-    "ctf_no_internal_error: false of the current code on four crash classes (known findings); PROVED for the unconditional "
-    "procedure outside them (ctfTRu_no_internal_error_partial: validated input, no self-intervened variable together with a "
-    "valueless variable, plain event variables as built by the public wrapper, every domain graph keeps the target's "
-    "bidirected edges between non-policy variables and has no bidirected edge at a selection node => answer or FAIL, no "
-    "error); for Algorithm 3 PROVED outside ONE crash class, for domain distributions over plain variables "
-    "(ctfTR_no_internal_error_plain_partial: validated input, plain query variables, DomainsAgree, PopsPlain = the children of "
-    "every domain's PopulationProbability are plain Variables, as in the PP[pi](V) every case of this harness carries, and the "
-    "decidable predicate OutcomesFound = every outcome is found in the ancestral components under its own name; the facts "
-    "about Algorithm 2's expression Q - never Zero(), only graph vertices and variables of the domain distributions, and it "
-    "mentions the vertex of every found outcome - are proved: ctfTR_q_good, qCovers_of_popsPlain). FALSE without OutcomesFound "
-    "(known findings crash:ctfTR-derived-event-rejected / crash:ctfTR-final-check; Lean witness a3Miss; the harness's "
-    "syntactic miss_all / miss_some is exactly the complement of OutcomesFound, cross-checked against the model by "
-    "tools/c09_errsearch.py --sig). The two further classes of ctfTR_no_internal_error_partial are DECIDED: DstarOneWorld "
-    "(D* names each vertex in one world) is not needed for any distributions (ctfTR_no_internal_error_found_partial: a vertex "
-    "in two worlds is merged by the conversion to ctf-factor form or makes Algorithm 2 answer FAIL, so an answer binds every "
-    "vertex once: ctfTR_simplified_binds_once; in particular CtfTr.finalChecksOrderSensitive is false on every answer); "
-    "OutcomeNotCondition (no outcome shares its vertex with a condition) IS needed for arbitrary domain distributions - a "
-    "distribution that lists a counterfactual variable next to its vertex, PP[pi](X, Y, Y_x), makes P*(Y = y | Y = y') raise "
-    "KeyError from check 5 of the output check after both validators accepted the input (Lean witness a3Shared, confirmed on "
-    "the Python by tools/c09_popworld_witness.py; observation recorded in DESIGN.md 9.3 (outside the quantifier of C09), NOT reachable by "
-    "this harness's case format) - and is not needed under PopsPlain; the oracle reports every exception after validation",
+    "ctf_no_internal_error: PROVED for every validated input whose selection diagrams agree with the target graph, for both "
+    "procedures, after three repairs of the code (repo c8cad49: SIMPLIFY drops a None that the merge of Y_y with Y leaves next "
+    "to a value; 333fa44: the unconditional validator rejects a valueless self-intervened variable with the TypeError that "
+    "SIMPLIFY raised after validation; f335599: ctfTR looks its outcomes up in the ancestral components under the minimised "
+    "form the components store). Algorithm 2: ctfTRu_no_internal_error (validated input, plain event variables as built by the "
+    "public wrapper, DomainsAgree = every domain graph keeps the target's bidirected edges between non-policy variables and "
+    "has no bidirected edge at a selection node => answer or FAIL, no error; no class of events excluded: simplify_no_error, "
+    "validateU_selfNone). Algorithm 3: ctfTR_no_internal_error (validated input, plain query variables, DomainsAgree, PopsPlain "
+    "= the children of every domain's PopulationProbability are plain Variables, as in the PP[pi](V) every case of this harness "
+    "carries; no class of queries excluded: every outcome is found under its lookup key, Ctf.ancestralSetRoot_mem / "
+    "ctfTR_outcomes_found; the facts about Algorithm 2's expression Q - never Zero(), only graph vertices and variables of the "
+    "domain distributions, and it mentions the vertex of every outcome - are proved: ctfTR_q_good, qCovers_of_popsPlain); for "
+    "arbitrary domain distributions ctfTR_no_internal_error_anypop_partial needs OutcomeNotCondition (a distribution that lists "
+    "a counterfactual variable next to its vertex, PP[pi](X, Y, Y_x), makes P*(Y = y | Y = y') raise KeyError from check 5 of "
+    "the output check: Lean witness a3Shared, confirmed on the Python by tools/c09_popworld_witness.py; outside the quantifier "
+    "of C09, NOT reachable by this harness's case format). FALSE without DomainsAgree: ONE crash class remains, the open finding "
+    "crash:sigmaTR-district-split (Algorithm 4's ValueError for a domain graph that lacks a bidirected edge of the target; not "
+    "repaired: the validator cannot reject such graphs because the pinned suite uses them - "
+    "test_transport_unconditional_counterfactual_query_line_5, test_transport_conditional_counterfactual_query_7 - and treating "
+    "the domain as unusable would turn an inconsistent input into a silent FAIL). The former crash findings "
+    "(crash:simplify-typeerror, crash:ctfTR-derived-event-rejected, crash:ctfTR-final-check) are `fixed:` lines and regression "
+    "cases in corpus/C09; an exception after validation on any other input is reported by the oracle as a violation",
     "failures on inputs with the syntactic signature of an open finding AND its kind of outcome (wrong value / wrong zero / "
-    "exception class at a named check) are attributed to that finding by class key (17 keys; signature computed on the "
+    "exception class at a named check) are attributed to that finding by class key (12 keys; signature computed on the "
     "minimised query with the harness's own graph code); a different defect that only shows on such inputs with the same "
     "kind of outcome would be masked in the conditional procedure (the unconditional one is also tied to the model)",
     "oracle model class: discrete variables, positive rational parameters, independent root latents per bidirected edge, one "
@@ -1321,7 +1327,7 @@ MANIFEST = {
     "text": ("Partial. Lean theorems about the model Y0.Model.CtfTr of api.py (validators of ctfTRu / ctfTR as decision "
              "functions, Algorithm 4, Algorithm 2 composed from the `ctf` family's models of SIMPLIFY / counterfactual "
              "ancestors / ancestral components / ctf-factors and the `tian` family's model of IDENTIFY; Algorithm 3 complete: "
-             "derivation of D*, Algorithm 2 on it, line 4 and the five final checks), 62 theorems in Props/C09 + Props/C09Sound (ctfTRu_correct_partial states the three clauses for Algorithm 2 together): THE VALUE CLAUSE FOR ALGORITHM 2 IS PROVED (ctfTRu_sound_partial): whenever ctfTRu answers (x, ev) for a validated input without a self-intervened variable whose simplified event has no valueless item and lies in the decidable class ctfSoundClass, then in every family of functional SCMs compatible with the target graph and the declared domains, at every valuation carrying the returned event's values, x evaluated on the declared domain distributions equals the target probability of the queried event - composed, with no link left as a hypothesis, from C19 (SIMPLIFY preserves the probability; the ctf-factor factorisation, here as a sum of products of c-factors: ctf_factorisation_cfactors), the syntactic link between line 2 of Algorithm 2 and the factorisation, C17 (IDENTIFY, c-factor routines) through sigmaTR_sound_family (Algorithm 4 returns Q*[district] of the TARGET model) and the transportability lemma cfactor_transportability (no selection node into the district and no policy variable in it => same c-factor in source and target), with a concrete two-domain family as non-vacuity witness; ctfTRu_sound_free_partial / ctfTRu_sound_fun cover valueless items read as free variables; THE VALUE CLAUSE FOR ALGORITHM 3 IS PROVED inside the decidable class ctfTRSoundClass (ctfTR_sound_partial: one world across all ancestral components, outcomes found under their own name, no self-intervention, no literal subscript naming a summed vertex - a predicate on graph and query only; every compatible family in which the conditions have positive probability; the returned fraction equals P*(outcomes and conditions)/P*(conditions)) - the two identities of ctfTR_sound_of_parts are discharged by a syntax-free semantic core (CondSem / cond_parts: composition axiom for the edges cut at conditioned ancestors, consistency of the members of the ancestral sets, marginalisation over valueless ancestors and over the outcomes, independence of the ancestral components without an outcome) and J = Q[V(D*)] (dstar_prob_eq_cfactor); ctfTR_zero_sound_partial (Zero only for impossible events, one-world D*) and ctfTR_correct_partial (the three clauses together) complete Algorithm 3; theorem and oracle are tied on every in-class conditional case. the validators reject with the documented classes only and an accepted "
+             "derivation of D*, Algorithm 2 on it, line 4 and the five final checks), 62 theorems in Props/C09 + Props/C09Sound (ctfTRu_correct_partial states the three clauses for Algorithm 2 together): THE VALUE CLAUSE FOR ALGORITHM 2 IS PROVED (ctfTRu_sound_partial): whenever ctfTRu answers (x, ev) for a validated input without a self-intervened variable whose simplified event has no valueless item and lies in the decidable class ctfSoundClass, then in every family of functional SCMs compatible with the target graph and the declared domains, at every valuation carrying the returned event's values, x evaluated on the declared domain distributions equals the target probability of the queried event - composed, with no link left as a hypothesis, from C19 (SIMPLIFY preserves the probability; the ctf-factor factorisation, here as a sum of products of c-factors: ctf_factorisation_cfactors), the syntactic link between line 2 of Algorithm 2 and the factorisation, C17 (IDENTIFY, c-factor routines) through sigmaTR_sound_family (Algorithm 4 returns Q*[district] of the TARGET model) and the transportability lemma cfactor_transportability (no selection node into the district and no policy variable in it => same c-factor in source and target), with a concrete two-domain family as non-vacuity witness; ctfTRu_sound_free_partial / ctfTRu_sound_fun cover valueless items read as free variables; THE VALUE CLAUSE FOR ALGORITHM 3 IS PROVED inside the decidable class ctfTRSoundClass (ctfTR_sound_partial: one world across all ancestral components, outcomes given in the minimal form the components store, no self-intervention, no literal subscript naming a summed vertex - a predicate on graph and query only; every compatible family in which the conditions have positive probability; the returned fraction equals P*(outcomes and conditions)/P*(conditions)) - the two identities of ctfTR_sound_of_parts are discharged by a syntax-free semantic core (CondSem / cond_parts: composition axiom for the edges cut at conditioned ancestors, consistency of the members of the ancestral sets, marginalisation over valueless ancestors and over the outcomes, independence of the ancestral components without an outcome) and J = Q[V(D*)] (dstar_prob_eq_cfactor); ctfTR_zero_sound_partial (Zero only for impossible events, one-world D*) and ctfTR_correct_partial (the three clauses together) complete Algorithm 3; theorem and oracle are tied on every in-class conditional case. the validators reject with the documented classes only and an accepted "
              "input has the stated shape (validateU_error_class, validateC_error_class, validateU_accepts, validateC_strict); "
              "an 'invalid input' outcome is exactly a rejection by the procedure's own validator and an accepted input is "
              "answered, refused, or ends in a non-validation error (ctfTRu_invalid_iff, ctfTRu_trichotomy, "
@@ -1331,16 +1337,17 @@ MANIFEST = {
              "without a self-intervened variable - the event has probability 0 in every compatible functional SCM "
              "(ctfTRu_zero_only_from_simplify, ctfTRu_zero_of_simplify, ctf_zero_sound_partial via C19); the returned event is "
              "SIMPLIFY's output and every ctf-factor is transported from a domain with no policy variable and no selection "
-             "node on its district (ctfTRu_event_is_simplified, sigmaTR_uses_usable_domain, transportFactors_all); outside the "
-             "known crash classes the unconditional procedure never raises (ctfTRu_no_internal_error_partial with "
-             "simplify_no_error_outside_risk, line2_total, sigmaTRDomain_no_error, transportFactors_no_error), the conditional procedure never raises outside its "
-             "crash classes (ctfTR_no_internal_error_partial: outcomes found in the ancestral components under their own name, "
-             "one world in D*, no outcome that is also a condition; with ctfTR_q_good: the expression Q of Algorithm 2 is never "
-             "Zero() and mentions only graph vertices and variables of the domain distributions), and an "
+             "node on its district (ctfTRu_event_is_simplified, sigmaTR_uses_usable_domain, transportFactors_all); NEVER ANOTHER ERROR IS PROVED FOR BOTH PROCEDURES on every validated input whose selection diagrams agree with the target graph, "
+             "after three repairs of the code (repo c8cad49, 333fa44, f335599): ctfTRu_no_internal_error (no class of events excluded: "
+             "simplify_no_error, validateU_selfNone, line2_total, sigmaTRDomain_no_error, transportFactors_no_error) and "
+             "ctfTR_no_internal_error (no class of queries excluded: every outcome is found in the ancestral components under its "
+             "lookup key, Ctf.ancestralSetRoot_mem / ctfTR_outcomes_found; with ctfTR_q_good: the expression Q of Algorithm 2 is never "
+             "Zero() and mentions only graph vertices and variables of the domain distributions; for domain distributions that list "
+             "counterfactual variables ctfTR_no_internal_error_anypop_partial needs OutcomeNotCondition), and an "
              "expression returned by Algorithm 4 denotes Q[district] of the domain's model (sigmaTR_sound, via C17 "
              "cfactor_sound / tian_sound). NOT "
-             "proved: the value clause outside ctfSoundClass (FALSE of the current code on the inputs of the open findings value:*), the value clause of Algorithm 3 outside ctfTRSoundClass (false on the findings cond:value:*; not decided for a literal subscript naming an outcome and multi-world queries the code happens to answer correctly), and the absence of non-validation errors in full "
-             "(ctf_no_internal_error: false on the crash classes of the findings; for Algorithm 3 the two further input classes are decided: DstarOneWorld is not needed (ctfTR_no_internal_error_found_partial), OutcomeNotCondition is not needed for distributions over plain variables (ctfTR_no_internal_error_plain_partial) and needed for arbitrary ones (witness a3Shared; such distributions are outside the quantifier of C09, see DESIGN.md 9.3), so OutcomesFound is the only crash class of Algorithm 3 for declared domains). These clauses are decided on every run by the correspondence (validators exact; "
+             "proved: the value clause outside ctfSoundClass (FALSE of the current code on the inputs of the open findings value:*), the value clause of Algorithm 3 outside ctfTRSoundClass (false on the findings cond:value:*; not decided for a literal subscript naming an outcome and multi-world queries the code happens to answer correctly), and the absence of non-validation errors WITHOUT the hypothesis DomainsAgree "
+             "(false on the one remaining crash class, open finding crash:sigmaTR-district-split: Algorithm 4 raises ValueError when a domain graph lacks a bidirected edge of the target inside a ctf-factor; such domain graphs are outside the quantifier of C09 - a selection diagram over the same nodes keeps the target's edges - but the validator accepts them and the pinned suite uses them). These clauses are decided on every run by the correspondence (validators exact; "
              "Algorithms 2 and 3: verdict, returned event and exact value of the expression) and by the exact functional-SCM "
              "oracle (noise-space enumeration of P*(event), policies as fresh mechanisms): trichotomy, zero-soundness and "
              "value on every answered case."),
